@@ -219,6 +219,23 @@ def model_strip_frontmatter(text: str) -> str:
     return text
 
 
+LONG_TEXT = ("the quick brown fox (v2) jumps over the lazy dog; it does so again and again, " * 3).strip()
+
+
+def render(doc, sp):
+    """docprop.render_case plus two C07-specific freedoms carried in the spelling record: `lead` blank lines before the first
+    line of the text (every receipt moves down by that many lines) and `long`: one more field holding a 240-character text
+    (what a rewrite became is reported in full, however long it is)."""
+    if sp.get("long"):
+        doc = {**doc, "body": doc["body"] + [{"t": "assign", "key": "LONGTEXT", "value": {"v": "str", "s": LONG_TEXT, "cls": "hostile"}, "lead": [], "trail": None}]}
+    text, info = docprop.render_case(doc, sp)
+    k = sp.get("lead", 0)
+    if k and doc.get("frontmatter") is None and doc.get("sentinel") is None:
+        text = "\n" * k + text
+        info = {**info, "rewrites": [{**r, "line": r["line"] + k} for r in info["rewrites"]]}
+    return text, info
+
+
 def shard(ctx: Ctx, sh: int, nshards: int, per_shard: int) -> Stats:
     st = Stats()
     counter = [0]
@@ -227,11 +244,16 @@ def shard(ctx: Ctx, sh: int, nshards: int, per_shard: int) -> Stats:
         i = counter[0]
         counter[0] += 1
         for sp in docprop.spellings_for(i, ctx.shard_seed(sh), ctx.pick(2, 3), curly=True):
-            text, info = docprop.render_case(doc, sp)
+            if i % 5 == 2:
+                sp = {**sp, "lead": 1 + i % 3}
+            if i % 4 == 1 and not (doc["body"] and doc["body"][-1]["t"] in ("zone",)):
+                sp = {**sp, "long": True}
+            text, info = render(doc, sp)
             want = expected(info)
             kinds = {k[0] + ":" + (k[1] if isinstance(k[1], str) and k[0] == "norm" and k[1] != '"""' else "") for k in want}
             nt = (sum(want.values()) >= 2 and len({k.split(":")[0] + k.split(":")[1][:1] for k in kinds}) >= 2) or info["protected"] > 0
             labels = ["sp_" + sp["k"]] + ["rw_" + k for k in sorted(kinds)] + (["protected_sites"] if info["protected"] else []) \
+                + (["leading_blank_lines"] if text.startswith("\n") else []) + (["long_rewrite_result"] if any(isinstance(k[2], str) and len(k[2]) > 160 for k in want) else []) \
                 + (["no_rewrites"] if not want else [])
             fails = oracle(doc, sp, text, info)
             st.case({"text": text, "rewrites": info["rewrites"][:6]}, nontrivial=nt, labels=labels, key=text)
@@ -243,7 +265,7 @@ def shard(ctx: Ctx, sh: int, nshards: int, per_shard: int) -> Stats:
 
 
 def check_case(case) -> list[Failure]:
-    text, info = docprop.render_case(case["doc"], case["sp"])
+    text, info = render(case["doc"], case["sp"])
     return [Failure(s, case, d) for s, d in oracle(case["doc"], case["sp"], text, info, with_tools=True)]
 
 
@@ -252,6 +274,9 @@ def shrink_candidates(case):
         yield {**case, "doc": d}
     if case["sp"]["k"] != "canon" and case["sp"].get("level", 0.6) > 0.3:
         yield {**case, "sp": {**case["sp"], "level": 0.3}}
+    for extra in ("lead", "long"):
+        if case["sp"].get(extra):
+            yield {**case, "sp": {k: v for k, v in case["sp"].items() if k != extra}}
 
 
 def run(ctx: Ctx) -> Stats:
